@@ -153,6 +153,69 @@ impl GenerationSource {
     pub fn gen_f64(&mut self) -> (r: f64) { unimplemented!() }
 }
 
+// ---- mutation gate and string payload operations (U8 in Verus) ------------------------------------
+/// f64 rate extremes as uninterpreted predicates (Verus has no float arithmetic); the contract of
+/// should_mutate over them is the one proved by the Kani harnesses u8_*_{arb,rand} ([C15] clauses).
+pub uninterp spec fn vf_rate_zero(rate: f64) -> bool;
+pub uninterp spec fn vf_rate_one(rate: f64) -> bool;
+#[verifier::external_body]
+pub fn should_mutate(source: &mut GenerationSource, rate: f64) -> (r: bool)
+    ensures vf_rate_zero(rate) ==> !r, vf_rate_one(rate) ==> r
+{ unimplemented!() }
+
+/// String operations on payload text: the view of a String is its sequence of chars
+#[verifier::external_body]
+pub fn vf_str_is_empty(s: &String) -> (r: bool)
+    ensures r == (s@.len() == 0)
+{ unimplemented!() }
+/// `s.len()` (length in bytes): at least the number of chars, 0 iff empty
+#[verifier::external_body]
+pub fn vf_str_byte_len(s: &String) -> (r: usize)
+    ensures r >= s@.len(), (r == 0) == (s@.len() == 0)
+{ unimplemented!() }
+/// `s.chars().take(n).collect::<String>()`
+#[verifier::external_body]
+pub fn vf_str_take_chars(s: &String, n: usize) -> (r: String)
+    ensures r@ == s@.take(if n <= s@.len() { n as int } else { s@.len() as int })
+{ unimplemented!() }
+/// `s.chars().collect::<Vec<char>>()`
+#[verifier::external_body]
+pub fn vf_str_chars(s: &String) -> (r: Vec<char>)
+    ensures r@ == s@
+{ unimplemented!() }
+/// `chars.into_iter().collect::<String>()`
+#[verifier::external_body]
+pub fn vf_string_from_chars(chars: Vec<char>) -> (r: String)
+    ensures r@ == chars@
+{ unimplemented!() }
+#[verifier::external_body]
+pub fn vf_string_clone(s: &String) -> (r: String)
+    ensures r@ == s@
+{ unimplemented!() }
+#[verifier::external_body]
+pub fn vf_string_push(s: &mut String, c: char)
+    ensures final(s)@ == old(s)@.push(c)
+{ unimplemented!() }
+#[verifier::external_body]
+pub fn vf_string_push_str(s: &mut String, t: &String)
+    ensures final(s)@ == old(s)@ + t@
+{ unimplemented!() }
+/// `v[..n].to_vec()`
+#[verifier::external_body]
+pub fn vf_prefix_to_vec(v: &Vec<u8>, n: usize) -> (r: Vec<u8>)
+    requires n <= v@.len()
+    ensures r@ == v@.take(n as int)
+{ unimplemented!() }
+/// `a.extend(b)` for Vec<u8>
+#[verifier::external_body]
+pub fn vf_vec_extend(a: &mut Vec<u8>, b: Vec<u8>)
+    ensures final(a)@ == old(a)@ + b@
+{ unimplemented!() }
+#[verifier::external_body]
+pub fn vf_vec_clone(a: &Vec<u8>) -> (r: Vec<u8>)
+    ensures r@ == a@
+{ unimplemented!() }
+
 // ---- text formatting (R6): opaque text values with the decimal round-trip assumption -----------------
 #[verifier::external_body]
 pub struct VfText { inner: usize }
